@@ -74,6 +74,8 @@ def check_pop(bag, costs, rng, n_values=None):
             viol("sort_by_cost", "caller-list-mutated", "the caller's list changed")
         ns = n_values if n_values is not None else range(0, size + 1)
         for n in ns:
+            # counts arrive as Python ints or as numpy integer scalars (np.sum(mask), rng.integers(...))
+            n = n if (n + size) % 3 else rng.choice([np.int64(n), np.int32(n), np.intp(n)])
             # best_agents
             bag["n"] += 1
             r = H.best_agents(pop, n, T)
